@@ -1,6 +1,19 @@
 use std::collections::VecDeque;
+#[cfg(tiny_http_verif)]
+use crate::verif_rt::{AtomicUsize, Condvar, Mutex};
+#[cfg(tiny_http_verif)]
+mod thread {
+    pub use crate::verif_rt::thread_spawn as spawn;
+}
+#[cfg(not(tiny_http_verif))]
 use std::sync::atomic::{AtomicUsize, Ordering};
+#[cfg(tiny_http_verif)]
+use std::sync::atomic::Ordering;
+#[cfg(not(tiny_http_verif))]
 use std::sync::{Arc, Condvar, Mutex};
+#[cfg(tiny_http_verif)]
+use std::sync::Arc;
+#[cfg(not(tiny_http_verif))]
 use std::thread;
 use std::time::Duration;
 
